@@ -170,6 +170,7 @@ func laneInputs(f func(w uint32)) {
 }
 
 func c06Components(c *core.Ctx) {
+	stepComponents(c)
 	if c.Shard == 0 {
 		compRun(c, "table-lengths", 0, 0)
 		for i := uint64(0); i < 256; i++ {
@@ -219,7 +220,177 @@ func c06Components(c *core.Ctx) {
 	}
 }
 
+// stepComponents compares single steps of both state machines on crafted states: boundary values in every tapped
+// cell, and LFSR states solved so that the ZUC feedback sum is exactly 0 mod 2^31-1 (the "replace 0 by 2^31-1" rule, an
+// event of probability 2^-31 per clock that no keystream comparison will ever hit by chance).
+func stepComponents(c *core.Ctx) {
+	if c.Shard != 3%c.NShards {
+		return
+	}
+	if !c.Begin("component", "state-machine-steps", "single steps on crafted states") {
+		return
+	}
+	const p = 0x7FFFFFFF
+	var n int64
+	failStep := func(what string, got, want any, in any) {
+		c.FailCase("component|"+what, fmt.Sprintf("%s on crafted state: implementation %x, reference %x", what, got, want), "component-step", in)
+	}
+	vals := []uint32{1, 2, p, p - 1, 0x40000000, 0x3FFFFFFF, 0x12345678, 0x00008000, 0x7FFF8000}
+	taps := []int{0, 4, 10, 13, 15}
+	base := [16]uint32{}
+	for i := range base {
+		base[i] = uint32(i+1) * 0x01010101 & p
+	}
+	zcheck := func(s [16]uint32, init bool, u uint32) {
+		n++
+		if g, w := zuc.VerifLfsrStep(s, init, u), refcrypto.ZucLfsrStep(s, init, u); g != w {
+			failStep("ZUC-LFSR-step", g[15], w[15], stepCase{What: "ZUC-LFSR-step", State: s[:], Init: init, U: u})
+		}
+	}
+	var rec func(k int, s [16]uint32)
+	rec = func(k int, s [16]uint32) {
+		if k == len(taps) {
+			for _, u := range []uint32{0, 1, p, p - 1} {
+				zcheck(s, true, u)
+			}
+			zcheck(s, false, 0)
+			return
+		}
+		for _, v := range vals {
+			s[taps[k]] = v
+			rec(k+1, s)
+		}
+	}
+	rec(0, base)
+	// solved zero-sum states: choose s4, s10, s13, s15 (and u), solve s0 from (1 + 2^8) s0 = -rest (mod p)
+	inv257 := modInv(257, p)
+	x := uint64(88172645463325252)
+	for i := 0; i < 20000; i++ {
+		s := base
+		for _, t := range taps[1:] {
+			x ^= x << 13
+			x ^= x >> 7
+			x ^= x << 17
+			s[t] = uint32(x%(p-1)) + 1
+		}
+		u := uint32(0)
+		init := i%2 == 1
+		if init {
+			x ^= x << 13
+			x ^= x >> 7
+			x ^= x << 17
+			u = uint32(x % p)
+		}
+		rest := (uint64(s[15])<<15%p + uint64(s[13])<<17%p + uint64(s[10])<<21%p + uint64(s[4])<<20%p + uint64(u)%p) % p
+		s0 := (p - rest) % p * inv257 % p
+		if s0 == 0 {
+			s0 = p
+		}
+		s[0] = uint32(s0)
+		zcheck(s, init, u)
+	}
+	// ZUC bit reorganisation and F, SNOW 3G FSM and LFSR steps on boundary words
+	words := []uint32{0, 1, 0xFFFFFFFF, 0x80000000, 0x7FFFFFFF, 0x01000000, 0x000000FF, 0xA5A5A5A5, 0x00010000, 0xFFFF0000}
+	for _, a := range words {
+		for _, b := range words {
+			for _, d := range words {
+				n += 4
+				zs := base
+				zs[15], zs[14], zs[11], zs[9], zs[7], zs[5], zs[2], zs[0] = a&p, b&p, d&p, a&p, b&p, d&p, a&p, b&p
+				if g, w := zuc.VerifBR(zs), refcrypto.ZucBR(zs); g != w {
+					failStep("ZUC-BR", g, w, stepCase{What: "ZUC-BR", State: zs[:]})
+				}
+				xx := [4]uint32{a, b, d, a ^ b}
+				for _, r := range [][2]uint32{{0, 0}, {b, d}, {0xFFFFFFFF, a}} {
+					gw, gr := zuc.VerifF(xx, r)
+					ww, wr := refcrypto.ZucF(xx, r)
+					if gw != ww || gr != wr {
+						failStep("ZUC-F", []uint32{gw, gr[0], gr[1]}, []uint32{ww, wr[0], wr[1]}, stepCase{What: "ZUC-F", State: append(xx[:], r[:]...)})
+					}
+				}
+				ls := [16]uint32{}
+				for i := range ls {
+					ls[i] = uint32(i) * 0x11111111
+				}
+				ls[0], ls[2], ls[11], ls[15], ls[5] = a, b, d, a^d, b
+				fsm := [3]uint32{d, a, b}
+				gf, gfs := snow3g.VerifClockFSM(ls, fsm)
+				wf, wfs := refcrypto.Snow3GClockFSM(ls, fsm)
+				if gf != wf || gfs != wfs {
+					failStep("SNOW3G-FSM-step", append([]uint32{gf}, gfs[:]...), append([]uint32{wf}, wfs[:]...), stepCase{What: "SNOW3G-FSM-step", State: append(ls[:], fsm[:]...)})
+				}
+				for _, init := range []bool{false, true} {
+					if g, w := snow3g.VerifLfsrStep(ls, init, a), refcrypto.Snow3GLfsrStep(ls, init, a); g != w {
+						failStep("SNOW3G-LFSR-step", g[15], w[15], stepCase{What: "SNOW3G-LFSR-step", State: ls[:], Init: init, U: a})
+					}
+				}
+			}
+		}
+	}
+	c.Add("component_checks", n)
+	c.Add("state_machine_steps_on_crafted_states", n)
+}
+
+type stepCase struct {
+	What  string   `json:"what"`
+	State []uint32 `json:"state"`
+	Init  bool     `json:"init,omitempty"`
+	U     uint32   `json:"u,omitempty"`
+}
+
+func stepExec(c *core.Ctx, in stepCase) {
+	var s16 [16]uint32
+	copy(s16[:], in.State)
+	bad := func(g, w any) { c.Fail("component|"+in.What, fmt.Sprintf("%s on crafted state %x: implementation %x, reference %x", in.What, in.State, g, w)) }
+	switch in.What {
+	case "ZUC-LFSR-step":
+		if g, w := zuc.VerifLfsrStep(s16, in.Init, in.U), refcrypto.ZucLfsrStep(s16, in.Init, in.U); g != w {
+			bad(g, w)
+		}
+	case "ZUC-BR":
+		if g, w := zuc.VerifBR(s16), refcrypto.ZucBR(s16); g != w {
+			bad(g, w)
+		}
+	case "ZUC-F":
+		var x [4]uint32
+		var r [2]uint32
+		copy(x[:], in.State[:4])
+		copy(r[:], in.State[4:])
+		gw, gr := zuc.VerifF(x, r)
+		ww, wr := refcrypto.ZucF(x, r)
+		if gw != ww || gr != wr {
+			bad([]uint32{gw, gr[0], gr[1]}, []uint32{ww, wr[0], wr[1]})
+		}
+	case "SNOW3G-FSM-step":
+		var fsm [3]uint32
+		copy(fsm[:], in.State[16:])
+		gf, gfs := snow3g.VerifClockFSM(s16, fsm)
+		wf, wfs := refcrypto.Snow3GClockFSM(s16, fsm)
+		if gf != wf || gfs != wfs {
+			bad(append([]uint32{gf}, gfs[:]...), append([]uint32{wf}, wfs[:]...))
+		}
+	case "SNOW3G-LFSR-step":
+		if g, w := snow3g.VerifLfsrStep(s16, in.Init, in.U), refcrypto.Snow3GLfsrStep(s16, in.Init, in.U); g != w {
+			bad(g, w)
+		}
+	}
+}
+
+func modInv(a, m uint64) uint64 {
+	// m prime: a^(m-2) mod m
+	r, b, e := uint64(1), a%m, m-2
+	for e > 0 {
+		if e&1 == 1 {
+			r = r * b % m
+		}
+		b = b * b % m
+		e >>= 1
+	}
+	return r
+}
+
 func c07Components(c *core.Ctx) {
+	stepComponents(c)
 	if c.Shard != 0 {
 		return
 	}
@@ -242,4 +413,6 @@ func c07Components(c *core.Ctx) {
 func init() {
 	core.RegisterKind("C06", "component", compExec)
 	core.RegisterKind("C07", "component", compExec)
+	core.RegisterKind("C06", "component-step", stepExec)
+	core.RegisterKind("C07", "component-step", stepExec)
 }
